@@ -70,6 +70,10 @@ def run(step):
             b._ctl.armed = True
     res.fault("restart")
     res.features.add("restart:" + feat + f":{len(objs)}")
+    if op.get("cold"):
+        _cold(step, objs, data, feat)
+        if step.viols:
+            return
     # sharing: a'._buffer is b'._buffer iff a._buffer is b._buffer
     for i in range(len(objs)):
         for j in range(i + 1, len(objs)):
@@ -114,3 +118,60 @@ def run(step):
         w.objs[oid] = n
         step.check_obj(n, "C20", what="restored_ne_model")
     step.new_restored = True
+
+
+def _cold(step, objs, data, feat):
+    """The same pickle, loaded in a fresh interpreter (nothing of this process survives): what the
+    child reads must be the model's value, sharing must be as it was, the restored buffers must
+    allocate outside the restored objects and the objects must survive that allocation."""
+    from . import coldload, core
+
+    w, res = step.w, step.res
+    try:
+        rep = coldload.cold_read(w.schema, data, [o.t for o in objs], core.REPO)
+    except coldload.ColdError as e:
+        raise RuntimeError(f"cold restart child failed: {e}")
+    if rep.get("harness_error"):
+        raise RuntimeError("cold restart child: " + rep["harness_error"])
+    res.fault("cold_restart")
+    res.features.add("cold_restart:" + feat)
+    if "load_raised" in rep:
+        step.viol("C20", "pickle_raised_in_fresh_process", ["restart", rep["load_raised"], feat], rep.get("load_msg", ""))
+        return
+    for i in range(len(objs)):
+        for j in range(i + 1, len(objs)):
+            was = objs[i].buf is objs[j].buf
+            now = rep["bufidx"][i] == rep["bufidx"][j]
+            if was != now:
+                step.viol("C20", "buffer_sharing_not_preserved", ["restart", "shared" if was else "separate", "fresh_process"], f"objects {objs[i].k},{objs[j].k}: shared before={was} after={now}")
+    # model snapshot with the buffer ids the child uses (-1-k for its k-th restored buffer)
+    bidmap = {}
+    for o, bi in zip(objs, rep["bufidx"]):
+        bidmap.setdefault(o.bufid, -1 - bi)
+    memo = {}
+    for j, o in enumerate(objs):
+        node = clone_graph(w.schema, o.t, o.node, memo, bidmap)
+        want = coldload.jsonable(M.snapshot(w.schema, o.t, node))
+        if rep["offsets"][j] != o.off:
+            step.viol("C20", "restored_offset_differs", ["restart", "fresh_process"], f"{o.off} -> {rep['offsets'][j]}")
+        for key, tag in (("reads", "restored_ne_model"), ("reads_after_alloc", "restored_ne_model_after_allocation")):
+            got = rep[key][j]
+            if not coldload.same_j(want, got):
+                step.viol("C20", tag, ["restart", typegen.features(w.schema, o.t), "fresh_process"], f"object {o.k}: {coldload.first_diff_j(want, got)}")
+                return
+    # a fresh allocation in a restored buffer lies in bounds and outside every restored object
+    seen = {}
+    for o, bi in zip(objs, rep["bufidx"]):
+        seen.setdefault(bi, []).append(o)
+    for bi, a in enumerate(rep["alloc"]):
+        if isinstance(a, list):
+            step.viol("C20", "restored_buffer_cannot_allocate", ["restart", a[1], "fresh_process"], str(a))
+            continue
+        if a < 0 or a + 8 > rep["capacity"][bi]:
+            step.viol("C20", "allocation_in_restored_buffer_out_of_bounds", ["restart", "fresh_process"], f"offset {a} capacity {rep['capacity'][bi]}")
+        for o in seen.get(bi, []):
+            # every allocation that was live in the original buffer is reserved in the restored one
+            for (lo, sz) in o.buf._sim_allocs:
+                if a < lo + sz and lo < a + 8:
+                    step.viol("C20", "allocation_in_restored_buffer_overlaps_restored_data", ["restart", "fresh_process"], f"offset {a} overlaps live range ({lo},{sz}) of the original")
+                    break
